@@ -27,6 +27,12 @@ type c46Case struct {
 	Input   []int64   `json:"input,omitempty"`
 	N       int       `json:"n,omitempty"`
 	Mod     int64     `json:"mod,omitempty"`
+	// pacing: the consumer stalls StallMs after every StallEvery elements; source i pauses PaceUs[i]
+	// microseconds after every PaceEvery[i] elements (0: free running)
+	StallEvery int   `json:"stall_every,omitempty"`
+	StallMs    int   `json:"stall_ms,omitempty"`
+	PaceEvery  []int `json:"pace_every,omitempty"`
+	PaceUs     []int `json:"pace_us,omitempty"`
 }
 
 type c46Result struct {
@@ -59,6 +65,16 @@ func c46RunCase(sys actor.ActorSystem, c c46Case, timeout time.Duration) c46Resu
 		subs := make([]Source[any], len(c.Sources))
 		for i, s := range c.Sources {
 			subs[i] = c46Source(s)
+			if i < len(c.PaceEvery) && c.PaceEvery[i] > 0 {
+				every, pause, cnt := c.PaceEvery[i], time.Duration(c.PaceUs[i])*time.Microsecond, 0
+				subs[i] = Via(subs[i], Map(func(v any) any {
+					cnt++
+					if cnt%every == 0 {
+						time.Sleep(pause)
+					}
+					return v
+				}))
+			}
 		}
 		switch c.Kind {
 		case "merge":
@@ -83,7 +99,7 @@ func c46RunCase(sys actor.ActorSystem, c c46Case, timeout time.Duration) c46Resu
 	for i, s := range srcs {
 		terms[i] = &atomic.Int64{}
 		var comp atomic.Int64
-		col, sink := c45Collect(terms[i], &comp)
+		col, sink := c45CollectStalling(terms[i], &comp, c.StallEvery, time.Duration(c.StallMs)*time.Millisecond)
 		cols[i] = col
 		h, err := s.To(sink).Run(ctx, sys)
 		if err != nil {
@@ -227,37 +243,39 @@ func c46EncMsg(m any) []int64 {
 }
 
 func c46Snap(a actor.Actor) []int64 {
-	b2i := func(b bool) int64 {
-		if b {
-			return 1
-		}
-		return 0
-	}
-	switch x := a.(type) {
+	var st []int64
+	var ok bool
+	switch a.(type) {
 	case *mergeSourceActor[any]:
-		return []int64{x.demand, int64(x.buf.len()), int64(x.doneCount)}
+		st, ok = c45Fields(a, "demand", "buf", "doneCount")
 	case *concatSourceActor[any]:
-		return []int64{x.demand, int64(x.buf.len()), int64(x.current + 1), b2i(x.done)}
+		st, ok = c45Fields(a, "demand", "buf", "current", "done")
+		if ok {
+			st[2]++ // the model counts spawned sub-pipelines (current+1)
+		}
 	case *zipNSourceActor[any, any]:
-		out := []int64{x.demand}
-		for i := range x.bufs {
-			out = append(out, int64(x.bufs[i].len()))
+		st, ok = c45Fields(a, "demand", "bufs[]", "done[]")
+	case *broadcastHubActor[any], *partitionHubActor[any]:
+		var d []int64
+		st, ok = c45Fields(a, "pending", "cancelled")
+		if ok {
+			d, ok = c45Fields(a, "demand[]")
+			st = append(append(st, 0), d...)
 		}
-		for i := range x.done {
-			out = append(out, b2i(x.done[i]))
-		}
-		return out
-	case *broadcastHubActor[any]:
-		out := []int64{x.pending, int64(x.cancelled), 0}
-		return append(out, x.demand...)
 	case *balanceHubActor[any]:
-		out := []int64{x.pending, int64(x.cancelled), int64(x.nextSlot)}
-		return append(out, x.demand...)
-	case *partitionHubActor[any]:
-		out := []int64{x.pending, int64(x.cancelled), 0}
-		return append(out, x.demand...)
+		var d []int64
+		st, ok = c45Fields(a, "pending", "cancelled", "nextSlot")
+		if ok {
+			d, ok = c45Fields(a, "demand[]")
+			st = append(st, d...)
+		}
+	default:
+		return nil
 	}
-	return nil
+	if !ok {
+		return c45NoState
+	}
+	return st
 }
 
 func c46RunSteps(t testing.TB, sys actor.ActorSystem, c c46StepCase) c45StepResult {
@@ -346,6 +364,7 @@ func c46RunSteps(t testing.TB, sys actor.ActorSystem, c c46StepCase) c45StepResu
 	}
 	res.Wire = drain()
 	res.Steps = append(res.Steps, c45StepObs{Alive: !wrap.stopped.Load(), State: st0})
+	var elemSeq uint64
 	for _, m := range c.Script {
 		var msg any
 		switch m.T {
@@ -360,7 +379,8 @@ func c46RunSteps(t testing.TB, sys actor.ActorSystem, c c46StepCase) c45StepResu
 		case "demand":
 			msg = &slotDemand{slot: m.Slot, n: m.N}
 		case "elem":
-			msg = &streamElement{subID: "hub", value: m.V}
+			elemSeq++
+			msg = &streamElement{subID: "hub", value: m.V, seqNo: elemSeq}
 		case "complete":
 			msg = &streamComplete{subID: "hub"}
 		case "error":
@@ -391,5 +411,44 @@ func TestVerifC46Steps(t *testing.T) {
 	defer w.close()
 	for _, c := range cases {
 		w.put(c46RunSteps(t, sys, c))
+	}
+}
+
+// ------------------------------------------------------------------------------------------
+// the FIFO queue behind the fan-in junction buffers, driven sequentially
+// ------------------------------------------------------------------------------------------
+
+type c46QueueCase struct {
+	ID  int     `json:"id"`
+	Ops []int64 `json:"ops"` // v >= 0: push v; -1: pop (never on an empty queue)
+}
+
+type c46QueueResult struct {
+	ID  int     `json:"id"`
+	Obs []int64 `json:"obs"` // push: len afterwards; pop: value, len afterwards
+}
+
+// TestVerifC46Queue runs long push/pop patterns on the real queue type.
+func TestVerifC46Queue(t *testing.T) {
+	cases := verifReadJSONL[c46QueueCase](t, "c46_queue_in.jsonl")
+	w := newVerifWriter(t, "c46_queue_out.jsonl")
+	defer w.close()
+	for _, c := range cases {
+		var q queue
+		res := c46QueueResult{ID: c.ID, Obs: make([]int64, 0, 2*len(c.Ops))}
+		for _, op := range c.Ops {
+			if op >= 0 {
+				q.push(op)
+				res.Obs = append(res.Obs, int64(q.len()))
+				continue
+			}
+			if q.empty() {
+				res.Obs = append(res.Obs, -1, 0)
+				continue
+			}
+			v, _ := q.pop().(int64)
+			res.Obs = append(res.Obs, v, int64(q.len()))
+		}
+		w.put(res)
 	}
 }
